@@ -33,6 +33,7 @@ def run(env: Env) -> Outcome:
                 "distinct by (spec, schedule) / op line")
     policy.correspondence(env, out, env.budget(3000, 60000))
     policy.budget_stream(env, out, env.budget(600, 12000))
+    policy.units_stream(env, out, env.budget(150, 3000))
     suite.direct_corr(env, out, env.budget(2000, 40000))
     suite.live_runs(env, out, env.budget(200, 4000), [monitors.mon_c05], extra_specs=suite.load_corpus("C05"))
     suite.live_runs(env, out, env.budget(300, 6000), [monitors.mon_c05], gen_kwargs={"family": "retry"})
